@@ -36,7 +36,8 @@ RULE = ('Every cell of the shape space above is executed (enumeration), and '
         'argument tuple; the invocation log must contain exactly that entry '
         '(or none). Non-trivial: >=2 candidate targets present, or the '
         'unrelated-handler flag set.'
-        ' Servers are configured with namespaces="*" or with a list (the judged namespace and a second one that has handlers of its own for the judged event and a catch-all).')
+        ' Servers are configured with namespaces="*" or with a list (the judged namespace and a second one that has handlers of its own for the judged event and a catch-all).'
+        ' Every function target can be registered twice, an earlier handler first: only the last registration may run.')
 ASSUMPTIONS = [
     "for an event literally named '*' the per-event targets coincide with "
     'the catch-all registry keys, so such cells are generated without them',
